@@ -228,7 +228,7 @@ fn gen_huge_merge(c: &mut Chooser) -> CaseSpec {
     let mut lens = vec![];
     let talkative: Vec<usize> = (0..4).map(|_| c.choose(n)).collect();
     for i in 0..n {
-        pspecs.push(PuppetSpec { mode: Mode::Listen, late: false, fin: Fin::Never, burst: 0, eager_end: false, per_pull: 1, on_stop: None, feedback: None, on_pull: None });
+        pspecs.push(PuppetSpec { mode: Mode::Listen, late: false, fin: Fin::Never, burst: 0, eager_end: false, per_pull: 1, on_stop: None, on_stop2: None, feedback: None, on_pull: None });
         lens.push(if talkative.contains(&i) { 1 + c.choose(2) } else { 0 });
     }
     let probe = ProbeSpec { policy: vec![if c.chance(1, 2) { React::Pull } else { React::Nothing }], rest: React::Nothing, pull_cap: 4, attach: None, poke: None, feed: None, late_pulls: false, drop_talkback: false };
@@ -453,6 +453,10 @@ pub fn gen_case_full(c: &mut Chooser, op: &str, prop: &str, small: bool, deep: b
                 pspecs[i].on_stop = Some((0, late[c.choose(late.len())]));
             } else if !listen.is_empty() {
                 pspecs[i].on_stop = Some((1, listen[c.choose(listen.len())]));
+                // now and then two siblings react (one ends, another one emits)
+                if listen.len() >= 2 && c.chance(1, 2) {
+                    pspecs[i].on_stop2 = Some((1, listen[c.choose(listen.len())]));
+                }
             }
         }
     }
@@ -557,6 +561,15 @@ pub fn gen_case_full(c: &mut Chooser, op: &str, prop: &str, small: bool, deep: b
             }
             policy[k] = React::Pull;
             probe_specs[i].policy = policy;
+        }
+    }
+    if let Topo::Share(n) = &topo {
+        // one sink's handler both attaches a new sink and makes an older one act
+        if *n >= 3 && !credit && c.chance(1, 6) {
+            let t = c.choose(3) as u8;
+            let k = 1 + c.choose(3);
+            probe_specs[0].attach = Some((t, k, 2));
+            probe_specs[0].poke = Some((t, k, 1, [React::Terminate, React::Error, React::Pull][c.choose(3)]));
         }
     }
     if let Topo::Share(n) = &topo {
